@@ -534,6 +534,14 @@ Definition prflx_default_prio (net comp : Z) : Z :=
   Priority 0 (TypePreference CandidateTypePeerReflexive net false 0)
              (LocalPreference CandidateTypePeerReflexive net TCPTypeUnspecified 0) comp.
 
+(* a.getSelector().HandleBindingRequest / HandleSuccessResponse: the selector of the current role *)
+Definition dispatch_request (cfg : config) (m : msg) (l rc : cand) : M :=
+  with_state s_ctl (fun ctl =>
+    if ctl then handle_request_controlling cfg m l rc else handle_request_controlled cfg m l rc).
+Definition dispatch_success (cfg : config) (m : msg) (l rc : cand) (src : addr) : M :=
+  with_state s_ctl (fun ctl =>
+    if ctl then handle_success_controlling cfg m l rc src else handle_success_controlled cfg m l rc src).
+
 (* Agent.handleInboundRequest; continuation receives the remote candidate when the request was accepted *)
 Definition handle_inbound_request (cfg : config) (orc : option cand) (l : cand) (src : addr) (m : msg)
            (k : option cand -> M) : M :=
@@ -546,11 +554,8 @@ Definition handle_inbound_request (cfg : config) (orc : option cand) (l : cand) 
         match m_ctl m with
         | Some (their_ctl, tb) =>
           if Bool.eqb their_ctl ctl then handle_role_conflict cfg m l rc tb ;; k None
-          else (if ctl then handle_request_controlling cfg m l rc else handle_request_controlled cfg m l rc) ;;
-               k (Some rc)
-        | None =>
-          (if ctl then handle_request_controlling cfg m l rc else handle_request_controlled cfg m l rc) ;;
-          k (Some rc)
+          else dispatch_request cfg m l rc ;; k (Some rc)
+        | None => dispatch_request cfg m l rc ;; k (Some rc)
         end) in
     match orc with
     | Some rc => continue rc
@@ -577,9 +582,7 @@ Definition handle_inbound (cfg : config) (l : cand) (src : addr) (m : msg) : M :
       match orc with
       | None => nop
       | Some rc =>
-        with_state s_ctl (fun ctl =>
-          if ctl then handle_success_controlling cfg m l rc src
-          else handle_success_controlled cfg m l rc src) ;;
+        dispatch_success cfg m l rc src ;;
         seen (c_h rc)
       end
     else if m_class m =? 0 then
